@@ -16,13 +16,13 @@ def dbKeep : Db :=
   { decls := [⟨nA, v1, [1], [(.always, .dep nC false false none none)]⟩, ⟨nA, v3, [2], []⟩, ⟨nC, v1, [3], []⟩],
     tags := [(tagCurrent, nA, v1), (tagCurrent, nC, v1)] }
 
-def envOf : Res → Option Env
+def envOf : Res → Option Setup.Env
   | .ok s => some s.env
   | _ => none
 
 /-- after `setup a` (→ `a 1`, `c 1`), `setup --keep a 3` ends with `c` not set up -/
 theorem C04_keep_drop_witness :
-    ∃ e1 e2, envOf (runSetup dbKeep 10 ⟨nA, none, false, none, false, []⟩ Env.empty) = some e1 ∧
+    ∃ e1 e2, envOf (runSetup dbKeep 10 ⟨nA, none, false, none, false, []⟩ Setup.Env.empty) = some e1 ∧
       envOf (runSetup dbKeep 10 ⟨nA, some (.explicit v3), true, none, false, []⟩ e1) = some e2 ∧
       e1.rec? nC = some v1 ∧ e2.rec? nC = none := by
   refine ⟨⟨[(nC, v1), (nA, v1)], [(nC, .own (nC, v1) []), (nA, .own (nA, v1) [])], [], []⟩,
